@@ -1,21 +1,4 @@
-"""Human-written texts for MANIFEST.json (see gen_manifest.py)."""
+"""Reasons for properties not claimed in MANIFEST.json (see gen_manifest.py)."""
 PENDING_REASON = ("not claimed yet: the bounded-exhaustive check designed in DESIGN.md section 3 "
                   "is not implemented/validated at this commit")
 NOT_APPLICABLE_REASON = {}
-META = {"engines": [], "checks": {}}
-
-META["checks"]["C13"] = {
-    "engine": "E2/E4 basis enumeration (harness/c13_rng.cc)",
-    "design_ref": "DESIGN.md section 3, C13",
-    "technique": "exhaustive enumeration over an F2 basis of the 160-bit state space + all 2^32 words; "
-                 "explicit reference model (bit-matrix powers) compared on every transition of the real engine",
-    "text": ("Model checking of the generator as a linear transition system: the real engine's one-step "
-             "map is extracted on the 160 unit states and its linearity checked exhaustively on pairs/"
-             "triples; every stored jump polynomial and the reseeding index arithmetic are compared with "
-             "independent matrix powers on every basis state, which by linearity covers all 2^160-1 "
-             "states; all 2^32 float canonicals are enumerated. This is a complete decision for the jump "
-             "tables and the float range, and a bounded one for composite counts / reseed triples."),
-    "note": ("Trusts: linearity argument (checked, not proved, on pairs/triples/dense states); g++ "
-             "-fno-access-control to reach the private subsequence skip; factorisation of 2^160-1 is "
-             "re-verified by multiplication and trial division inside the harness."),
-}
